@@ -1,6 +1,7 @@
 package props
 
 import (
+	"go/constant"
 	"fmt"
 	"go/ast"
 	"go/token"
@@ -19,7 +20,10 @@ func init() { register(&Checker{ID: "C19", Canaries: c19Canaries, Run: runC19}) 
 func c19Canaries() []core.Canary {
 	return []core.Canary{{RelDir: "util/dateutil", Name: "c19", Src: `package dateutil
 
-import "bytes"
+import (
+	"bytes"
+	"time"
+)
 
 // minutes computed from the hour remainder with the wrong divisor, milliseconds padded to two digits
 func (this *DateTimeHelper) zzCanaryStamp(time int64) string {
@@ -37,7 +41,12 @@ func (this *DateTimeHelper) zzCanaryStamp(time int64) string {
 	buffer.WriteString(mk2(sss))
 	return buffer.String()
 }
-`, Expect: []core.CanaryExpect{{Rule: "C19.fields", Sub: "zzCanaryStamp"}}}}
+
+// a 12-hour layout without an AM/PM marker
+func zzCanaryClock(ms int64) string {
+	return time.UnixMilli(ms).UTC().Format("030405")
+}
+`, Expect: []core.CanaryExpect{{Rule: "C19.fields", Sub: "zzCanaryStamp"}, {Rule: "C19.layouts", Sub: "zzCanaryClock"}}}}
 }
 
 func runC19(p *core.Program, r *core.Report) {
@@ -46,11 +55,13 @@ func runC19(p *core.Program, r *core.Report) {
 	r.Rule("C19.tables", "month lengths, Gregorian leap rule (400 residues), base instant, weekday start, MILLIS_PER_* values, leap correction wherever month lengths are used", 7)
 	r.Rule("C19.units", "unit functions are (t-BASE)/STEP with the STEP their name states", 5)
 	r.Rule("C19.fields", "every formatted field fits the fixed width it is padded to (interval analysis of the decomposition)", 6)
+	r.Rule("C19.layouts", "standard-library layouts used by the calendar helpers are 24-hour (no 03/3 hour token without an AM/PM marker)", 0)
 	r.Rule("C19.format-parse", "DateFormat.format and Parse: same letters, same widths, separators one rune on both sides", 8)
 	c19Tables(p, r)
 	c19Units(p, r)
 	c19Fields(p, r)
 	c19Pad(p, r)
+	c19Layouts(p, r)
 	c19FormatParse(p, r)
 }
 
@@ -268,7 +279,7 @@ func c19Fields(p *core.Program, r *core.Report) {
 					return eval(v.Args[0])
 				}
 			case *ast.BinaryExpr:
-				if v.Op == token.SUB && strings.ReplaceAll(stripSpaces(types.ExprString(v)), rn+".", "") == "time-BASE_TIME" {
+				if v.Op == token.SUB && strings.ReplaceAll(stripSpaces(types.ExprString(v.Y)), rn+".", "") == "BASE_TIME" && isParamIdent(info, fi, v.X) {
 					if guarded {
 						return ival{0, math.Inf(1)}, true
 					}
@@ -716,4 +727,88 @@ func c19FormatParse(p *core.Program, r *core.Report) {
 	}
 	r.Check(fdef == "rune" && pdef == "rune", "C19.format-parse", "util/dateutil.DateFormat literal separators", pos, "one rune written, one rune skipped",
 		fmt.Sprintf("a literal separator is written as one %s but skipped as one %s: non-ASCII separators misalign the following fields", fdef, pdef))
+}
+
+// isParamIdent: e is (a conversion of) one of the function's parameters.
+func isParamIdent(info *types.Info, fi *core.FuncInfo, e ast.Expr) bool {
+	id, ok := ast.Unparen(stripConvs(info, e)).(*ast.Ident)
+	if !ok || fi.Decl.Type.Params == nil {
+		return false
+	}
+	o := info.ObjectOf(id)
+	for _, f := range fi.Decl.Type.Params.List {
+		for _, n := range f.Names {
+			if info.Defs[n] == o {
+				return true
+			}
+		}
+	}
+	return false
+}
+
+// c19Layouts: wherever the calendar helpers hand formatting or parsing to package time, the layout
+// must not be a 12-hour one without an AM/PM marker (03:04 denotes two instants a day).
+func c19Layouts(p *core.Program, r *core.Report) {
+	pk := p.Pkg("util/dateutil")
+	if pk == nil {
+		return
+	}
+	for _, fi := range p.Funcs {
+		if fi.Pkg != pk || fi.Decl.Body == nil {
+			continue
+		}
+		info := fi.Pkg.TypesInfo
+		ast.Inspect(fi.Decl.Body, func(n ast.Node) bool {
+			call, ok := n.(*ast.CallExpr)
+			if !ok {
+				return true
+			}
+			sel, ok := ast.Unparen(call.Fun).(*ast.SelectorExpr)
+			if !ok {
+				return true
+			}
+			fn, _ := info.Uses[sel.Sel].(*types.Func)
+			if fn == nil || fn.Pkg() == nil || fn.Pkg().Path() != "time" {
+				return true
+			}
+			li := -1
+			switch fn.Name() {
+			case "Format", "Parse", "ParseInLocation":
+				li = 0
+			case "AppendFormat":
+				li = 1
+			}
+			if li < 0 || li >= len(call.Args) {
+				return true
+			}
+			c := core.FuncName(fi.Obj) + " time." + fn.Name()
+			pos := p.Pos(call.Pos())
+			tv := info.Types[call.Args[li]]
+			if tv.Value == nil || tv.Value.Kind() != constant.String {
+				r.Info("C19.layouts", c, pos, "layout is not a constant")
+				return true
+			}
+			layout := constant.StringVal(tv.Value)
+			twelve := strings.Contains(layout, "03") || hasLoneHour3(layout)
+			marker := strings.Contains(layout, "PM") || strings.Contains(layout, "pm")
+			r.Check(!twelve || marker, "C19.layouts", c, pos, fmt.Sprintf("layout %q is unambiguous", layout),
+				fmt.Sprintf("layout %q has a 12-hour hour field and no AM/PM marker: afternoon instants are rendered as morning ones (13:00 as 01:00)", layout))
+			return true
+		})
+	}
+}
+
+// hasLoneHour3: the layout contains the one-digit 12-hour token "3" (not part of 03, .000-style or a year).
+func hasLoneHour3(l string) bool {
+	for i := 0; i < len(l); i++ {
+		if l[i] != '3' {
+			continue
+		}
+		prevDigit := i > 0 && l[i-1] >= '0' && l[i-1] <= '9'
+		nextDigit := i+1 < len(l) && l[i+1] >= '0' && l[i+1] <= '9'
+		if !prevDigit && !nextDigit {
+			return true
+		}
+	}
+	return false
 }
